@@ -62,6 +62,8 @@ def main():
                 cmd += " --cases %d" % m["cases"]
             if m.get("shards"):
                 cmd += " --shards %d" % m["shards"]
+            if m.get("tier"):
+                cmd += " --tier %s" % m["tier"]
             t0 = time.time()
             r = sh(cmd)
             dt = time.time() - t0
